@@ -20,12 +20,26 @@ def arrowheadNames : List String :=
   ["none", "arrow", "triangle", "diamond", "circle", "box", "cf-one", "cf-many", "cf-one-required", "cf-many-required", "cross"]
 def knownColors : List String := ["red", "blue", "green", "orange", "black", "white", "yellow", "purple", "grey", "gray"]
 
-/-- `Object.ID` of a field name (`d2format.Format` of `RawString(name, inKey)`): plain names only.  A name whose lower-case form
-    is a reserved keyword other than the name itself is double-quoted by `RawString` (`"Label"`); a name that is a reserved
-    keyword in lower case stays as it is (`label`) -/
+/-- a hyphen is special in a key when it ends the key or is followed by another hyphen (`RawString`, inKey) -/
+def hyphenSpecial : List Char → Bool
+  | [] => false
+  | ['-'] => true
+  | '-' :: '-' :: _ => true
+  | _ :: r => hyphenSpecial r
+
+/-- does `RawString(s, inKey = true)` return a double-quoted string?  (names over letters, digits, hyphen, space, dot) -/
+def keyNeedsQuotes (n : Name) : Bool :=
+  let cs := n.s.toList
+  cs.contains '.' || hyphenSpecial cs ||
+  (n.resLower && toLower n.s != n.s) ||
+  cs.head? == some ' ' || cs.getLast? == some ' '
+
+/-- `Object.ID` of a field name (`d2format.Format` of `RawString(name, inKey)`).  `RawString` double-quotes a name that contains
+    a dot, a hyphen at the end or before another hyphen, surrounding blanks, or whose lower-case form is a reserved keyword
+    other than the name itself (`"Label"`); a name that is a reserved keyword in lower case stays as it is (`label`) -/
 def objID (n : Name) : Except Err String :=
   if !plainName n.s then .error (.gap s!"name {n.s} needs quoting")
-  else if n.resLower && toLower n.s != n.s then .ok ("\"" ++ n.s ++ "\"") else .ok n.s
+  else if keyNeedsQuotes n then .ok ("\"" ++ n.s ++ "\"") else .ok n.s
 
 def objIDs : List Name → Except Err (List String)
   | [] => .ok []
